@@ -20,6 +20,9 @@ LIVE = ["UndefinedName", "DuplicateName", "MissingInstantiationArg", "DuplicateI
         "MissingInstanceExport", "MissingComponentImport", "MismatchedInstantiationArg", "UnknownPackage"]
 
 
+WHOLE_LIST_CALLS = {"iter", "into_iter", "deref", "as_slice", "as_ref", "len", "enumerate", "borrow"}
+
+
 def calls_to(f, suffix):
     return [t for t in f.calls() if (t.path or "").endswith(suffix)]
 
@@ -42,6 +45,7 @@ def precedence(ctx):
     imp = calls_to(f, "CompositionGraph::get_import_name")
     ali = calls_to(f, "CompositionGraph::get_alias_source")
     fm = calls_to(f, "AstResolver::find_matching_interface_name")
+    per_source_guards(ctx, f)
     ctx.ob("R04.1", "anchor", len(imp) == 1 and len(ali) == 1 and len(fm) == 1, "import-name / alias-source / suffix-match sites: %d/%d/%d" % (len(imp), len(ali), len(fm)), nontrivial=False)
     if not (imp and ali and fm):
         return
@@ -83,6 +87,37 @@ def precedence(ctx):
     ok = kinds >= {"instance-id", "import", "alias", "suffix", "ident"}
     ctx.ob("R04.1", "name-sources", ok, "the five return sites name the argument after the instance id, the import name, the alias export, the suffix match and the identifier" if ok else
            "return sites found for %s only" % sorted(kinds), site=f.span)
+
+
+def per_source_guards(ctx, f):
+    """each of the documented name sources 1 and 2 (instance id; import name; alias export name) is tested against the
+    package's imports *on its own*, so a miss on one falls through to the next: for every source there is a
+    `world.imports.contains_key(k)` whose key is derived from that source and from no other."""
+    db, prov = ctx.db, ctx.prov
+    per = {"instance-id": 0, "import-name": 0, "alias-name": 0}
+    mixed = []
+    for g in db.with_closures(f):
+        for c in calls_to(g, "IndexMap::contains_key"):
+            if not narrow(prov, g, c.args[0]).has_field("imports", "component::World"):
+                continue
+            ks = prov.slice(g, c.args[1])
+            src = set()
+            if ks.has_field("id", "component::Interface"):
+                src.add("instance-id")
+            if ks.has_call("get_import_name"):
+                src.add("import-name")
+            if ks.has_call("get_alias_source"):
+                src.add("alias-name")
+            if len(src) == 1:
+                per[src.pop()] += 1
+            elif len(src) > 1:
+                mixed.append("%s tests %s together" % (c.span, "/".join(sorted(src))))
+    for k, n in sorted(per.items()):
+        ctx.ob("R04.1", "own-guard|" + k, n >= 1,
+               "the %s candidate is checked against the package's imports on its own (falls through on a miss)" % k if n else
+               "no `imports.contains_key` test of the %s candidate alone%s: when an earlier source yields a name the package does not import, "
+               "the later sources are never tried (documented precedence 1 -> 2 -> 3 broken)" % (k, " (" + "; ".join(mixed) + ")" if mixed else ""),
+               site=f.span)
 
 
 def arm_callees(ctx, f, adt_suffix):
@@ -173,13 +208,25 @@ def assembly(ctx):
     # fill: error unless last; the only writer of require_all
     fill = [s for s in f.stmts() if s.rv.k == "agg" and s.rv.j.get("variant") == "FillArgumentNotLast"]
     okf = False
+    fill_why = []
     for s in fill:
         for b in f.blocks:
             if b.term.k == "switch" and cfg.dominates(b.idx, s.bb):
                 sl = prov.slice(f, Operand(b.term.j["discr"]))
                 if sl.has_call("::len") and ("Sub" in sl.binops or "SubWithOverflow" in sl.binops) and sl.has_call("enumerate") and ("Ne" in sl.binops or "Eq" in sl.binops):
-                    okf = True
-    ctx.ob("R04.3", "fill-must-be-last", okf, "`...` is rejected unless its index is len-1" if okf else "the fill argument is not compared with the last index", site=f.span)
+                    # both the length and the enumerated index range over the *whole* written argument list
+                    whole = True
+                    for _, c in sl.calls:
+                        nm = (c.path or "").rsplit("::", 1)[-1]
+                        if nm in ("len", "enumerate") and c.args:
+                            rs = prov.slice(f, c.args[0])
+                            adapt = sorted({(x.path or "?").rsplit("::", 1)[-1] for _, x in rs.calls} - WHOLE_LIST_CALLS)
+                            if adapt or not rs.has_field("arguments", "NewExpr"):
+                                whole = False
+                                fill_why.append("`%s` at %s ranges over %s, not over the written argument list" % (nm, c.span, "a list produced by " + "/".join(adapt) if adapt else "another list"))
+                    okf = okf or whole
+    ctx.ob("R04.3", "fill-must-be-last", okf, "`...` is rejected unless its index is len-1 of the written argument list" if okf else
+           "the fill argument is not compared with the last index of the written argument list%s" % (": " + "; ".join(fill_why) if fill_why else ""), site=f.span)
     ra = [l for l, n in ((int(k), v) for k, v in f.names.items() if k.isdigit()) if n == "require_all"]
     okr = False
     if ra:
